@@ -48,6 +48,9 @@ static void write_srec_line(
     }
   }
 
+  // An address that doesn't fit in 24 bits needs an S3 record.
+  if (type == 2 && address > 0xffffff) { type = 3; }
+
   if (type <= 1)
   {
     address &= 0xffff;
